@@ -8,7 +8,7 @@ set -u
 W=$1; X=$2; demo=$3; shift 3
 cd $W
 git checkout -q -- . ; git clean -fdq -e target -e out
-cp out/demo_$X.rs $demo
+mkdir -p $(dirname $demo); cp out/demo_$X.rs $demo
 echo "== without patch: demo must pass"
 cargo test --offline "$@" 2>&1 | grep -E "^test result|FAILED|panicked|error(\[|:)" | head -5
 git apply out/$X.diff || { echo "PATCH DOES NOT APPLY"; exit 2; }
